@@ -30,6 +30,28 @@ USERS = ["A", "B"]
 CACHE_RE = re.compile(r"\.pickleDB\d+_\d+_\d+$")
 
 
+def spell_path(p, k):
+    """a non-normal spelling of a directory path: 1 trailing slash, 2 doubled slash, 3 dot component (0: as it is)"""
+    d, b = os.path.split(p)
+    return [p, p + "/", d + "//" + b, d + "/./" + b][k % 4]
+
+
+def eups_path(world, cmd):
+    """EUPS_PATH of a command: each stack in the spelling `cmd["spell"][i]` asks for"""
+    sp = cmd.get("spell") or []
+    return ":".join(spell_path(s, sp[i] if i < len(sp) else 0) for i, s in enumerate(world.stacks))
+
+
+def stack_obj(e, s):
+    """the in-memory stack an Eups instance keeps for stack directory `s`, however the instance spells its key"""
+    if s in e.versions:
+        return e.versions[s]
+    for k, v in e.versions.items():
+        if os.path.normpath(k) == os.path.normpath(s):
+            return v
+    raise KeyError(s)
+
+
 def table_text(cid):
     """bytes of the table file with content id `cid` (a comment; sizes differ so that filecmp never ties)"""
     return "# content %d %s\n" % (cid, "x" * cid)
@@ -491,7 +513,7 @@ def _child_live2(world, cmd):
     instance — whose in-memory stacks are as old as its construction or its last write-through.  Exercises
     `ProductStack.ensureInSync / cacheIsInSync / _cacheFileIsInSync`, the CacheOutOfSync branch of `save` and `reload`."""
     _quiet_fds()
-    os.environ["EUPS_PATH"] = ":".join(world.stacks)
+    os.environ["EUPS_PATH"] = eups_path(world, cmd)
     os.environ["EUPS_USERDATA"] = world.uds[cmd.get("user", "A")]
     import tempfile
     tempfile.tempdir = world.tmp
@@ -499,8 +521,11 @@ def _child_live2(world, cmd):
     _install_audit(events)
     _install_calltrace(world, calls)
     fl = cmd.get("flavor", "Linux")
-    insts = [common.new_eups(flavor=fl), common.new_eups(flavor=fl)]
-    loaded = [[sorted(e.versions[s].getFlavors()) for s in world.stacks] for e in insts]
+    insts = []
+    for _ in range(2):
+        os.environ["EUPS_PATH"] = eups_path(world, cmd)      # the constructor rewrites the variable
+        insts.append(common.new_eups(flavor=fl))
+    loaded = [[sorted(stack_obj(e, s).getFlavors()) for s in world.stacks] for e in insts]
     outs = []
     import time
     for i, c in cmd["seq"]:
@@ -525,7 +550,7 @@ def _child_race(world, cmd):
     when A never gets there (it rebuilt its stacks), B runs between A's constructor and A's command.  Then A runs its
     own command.  Module attribute replacement in the ProductStack module (`pickle`, `open`) only."""
     _quiet_fds()
-    os.environ["EUPS_PATH"] = ":".join(world.stacks)
+    os.environ["EUPS_PATH"] = eups_path(world, cmd)
     os.environ["EUPS_USERDATA"] = world.uds[cmd.get("user", "A")]
     import tempfile
     import importlib
@@ -594,7 +619,7 @@ def _child_race(world, cmd):
         if st["fired"] is None:
             run_b("after_init")
     if e is not None:
-        loaded = [sorted(e.versions[s].getFlavors()) for s in world.stacks]
+        loaded = [sorted(stack_obj(e, s).getFlavors()) for s in world.stacks]
         if st["fired"] is None:
             run_b("after_init")
         time.sleep(0.004)
@@ -618,7 +643,7 @@ def _child_command(world, cmd, probe=None):
         os.dup2(fd, 2)
     else:
         _quiet_fds()
-    os.environ["EUPS_PATH"] = ":".join(world.stacks)
+    os.environ["EUPS_PATH"] = eups_path(world, cmd)
     os.environ["EUPS_USERDATA"] = world.uds[cmd.get("user", "A")]
     import tempfile
     tempfile.tempdir = world.tmp          # scratch files of the command (table given as a stream) land outside the stacks
@@ -634,7 +659,7 @@ def _child_command(world, cmd, probe=None):
         cmd["interpose"](cmd, world, events, state0)
     e = common.new_eups(flavor=cmd.get("flavor", "Linux"), force=bool(cmd.get("force")),
                         noaction=bool(cmd.get("noaction")))
-    loaded = [sorted(e.versions[s].getFlavors()) for s in world.stacks]
+    loaded = [sorted(stack_obj(e, s).getFlavors()) for s in world.stacks]
     view = view_of(world, e)
     state0.update(loaded=loaded, view=view)
     ret, exc = None, None
@@ -655,21 +680,50 @@ def _child_command(world, cmd, probe=None):
     return out
 
 
+CLI_CLASSES = {
+    "declare": ["plain", "two_tags", "tag_and_c", "c_only", "Z_after", "force", "quiet", "verbose", "no_version_tag"],
+    "undeclare": ["plain", "U_no_version", "c_only", "Z_after", "force", "quiet", "verbose", "U_without_tag"],
+    "unassignTag": ["plain", "U_no_version", "c_only", "Z_after", "force", "quiet", "verbose"],
+    "remove": ["plain", "tag_no_version", "tag_only", "Z_after", "force", "quiet", "verbose", "noCheck"],
+}
+
+
 def cli_argv(world, cmd):
     """the command line of a dry run: `eups declare|undeclare|remove -n ...` for a command of the generator
-    (`unassignTag` is `eups undeclare -t`); None when the command has no command-line form"""
+    (`unassignTag` is `eups undeclare -t`); `cmd["cli_class"]` picks an unusual-but-legal or refused combination of
+    options (several tags, -c forms, -U without version, -Z after the command word, -F / -q / -v with -n, remove by
+    tag); None when the command has no command-line form"""
     op = cmd["op"]
+    cls = cmd.get("cli_class") or "plain"
     common_opts = ["-n", "-f", cmd.get("flavor", "Linux")]
-    if cmd.get("force"):
-        common_opts.append("-F")
-    if cmd.get("stack") is not None:
+    if cmd.get("force") or cls == "force":
+        common_opts.append(rng_free_choice(cmd, ["-F", "--force"]))
+    if cls == "quiet":
+        common_opts.append("-q")
+    if cls == "verbose":
+        common_opts += ["-v", "-v"]
+    if cls == "Z_after":
+        # the database option given after the command word: every stack, or one, possibly spelled non-normally
+        sel = world.stacks if cmd.get("stack") is None else [world.stacks[cmd["stack"]]]
+        common_opts += ["-Z", ":".join(spell_path(s, (cmd.get("spell") or [0, 0])[i % 2]) for i, s in enumerate(sel))]
+    elif cmd.get("stack") is not None:
         common_opts += ["-z", os.path.basename(world.stacks[cmd["stack"]])]
+    tag = cmd.get("tag")
+    other = "stable" if tag != "stable" else "rc-1"
     if op == "declare":
-        a = ["declare", cmd["name"], cmd["version"]]
+        a = ["declare", cmd["name"]] + ([] if cls == "no_version_tag" else [cmd["version"]])
         if cmd.get("dir") is not None:
             a += ["-r", world.path_of(cmd["dir"])]
-        if cmd.get("tag"):
-            a += ["-t", cmd["tag"]]
+        if cls == "two_tags":
+            a += ["-t", tag or "current", "-t", other]
+        elif cls == "tag_and_c":
+            a += ["-t", tag or other, "-c"]
+        elif cls == "c_only":
+            a += ["-c"]
+        elif cls == "no_version_tag":
+            a += ["-t", tag or "current"]
+        elif tag:
+            a += ["-t", tag]
         t = cmd.get("table")
         if t == "none":
             a += ["-m", "none"]
@@ -684,15 +738,32 @@ def cli_argv(world, cmd):
             a += ["-L", "%s:%s" % (os.path.join(world.src, "c%d" % cid), path)]
         return a + common_opts
     if op in ("undeclare", "unassignTag"):
-        a = ["undeclare", cmd["name"]] + ([cmd["version"]] if cmd.get("version") else [])
-        if cmd.get("tag"):
-            a += ["-t", cmd["tag"]]
-        if cmd.get("vat"):
+        nover = cls == "U_no_version"
+        a = ["undeclare", cmd["name"]] + ([cmd["version"]] if cmd.get("version") and not nover else [])
+        if cls == "c_only":
+            a += ["-c"]
+        elif cls == "U_without_tag":
             a += ["-U"]
+        elif tag or nover:
+            a += ["-t", tag or "current"]
+        if cmd.get("vat") or nover:
+            a += [rng_free_choice(cmd, ["-U", "--undeclareVersion"])]
         return a + common_opts
     if op == "remove":
-        return ["remove", cmd["name"], cmd["version"], "--noInteractive"] + (["-R"] if cmd.get("recursive") else []) + common_opts
+        if cls == "tag_only":
+            return ["remove", "-t", tag or "current", "--noInteractive"] + common_opts
+        a = ["remove", cmd["name"]] + ([] if cls == "tag_no_version" else [cmd["version"]]) + ["--noInteractive"]
+        if cls == "tag_no_version":
+            a += ["-t", tag or "current"]
+        if cls == "noCheck":
+            a += ["-N", "-R"]
+        return a + (["-R"] if cmd.get("recursive") and cls != "noCheck" else []) + common_opts
     return None
+
+
+def rng_free_choice(cmd, options):
+    """a deterministic pick that depends on the command only (the children have no generator)"""
+    return options[len(common.jdump(cmd)) % len(options)]
 
 
 def _child_cli(world, cmd):
@@ -703,7 +774,7 @@ def _child_cli(world, cmd):
     fd = os.open(msgfile, os.O_WRONLY | os.O_CREAT | os.O_TRUNC, 0o600)
     os.dup2(fd, 1)
     os.dup2(fd, 2)
-    os.environ["EUPS_PATH"] = ":".join(world.stacks)
+    os.environ["EUPS_PATH"] = eups_path(world, cmd)
     ud = os.path.join(world.root, "cli-userdata")
     os.makedirs(ud, exist_ok=True)
     os.environ["EUPS_USERDATA"] = ud
@@ -738,7 +809,7 @@ def view_of(world, e):
     `.versions` and `.tags`), in the canonical form of a listing"""
     decls, tags = [], []
     for si, s in enumerate(world.stacks):
-        for fl, names in e.versions[s].lookup.items():
+        for fl, names in stack_obj(e, s).lookup.items():
             for n, fam in names.items():
                 for v, data in fam.versions.items():
                     decls.append([si, n, v, fl, world.canon_path(data[0]), world.canon_table(n, data[0], data[1], (si, fl, v))])
